@@ -62,7 +62,7 @@ Definition has_fm (T : tables) (r : Z) : bool := match fold_map T r with Some _ 
 (* every non-zero entry of a stored FoldMap row folds like its key; keys are not 0 *)
 Definition chk_fm_sound (T : tables) : bool :=
   fm_check T (fun fs => match fs with
-                      | k :: _ => negb (k =? 0) && forallb (fun f => case_fold T f =? case_fold T k) (take_nz fs)
+                      | k :: _ => negb (k =? 0) && forallb (fun f => (case_fold T f =? case_fold T k) && (0 <=? f) && (f <? 1114112)) (take_nz fs)
                       | [] => false end).
 (* stored (upper, lower) pairs fold alike — unless FoldMap shadows both non-ASCII members
    (U+0130 / U+0131, whose ToUpper/ToLower partners are not fold partners) — and are code points *)
@@ -72,7 +72,8 @@ Definition chk_ul_sound (T : tables) : bool :=
 (* the special cases of ToUpperLower (titlecase digraphs): either FoldMap covers the rune, or the pair does *)
 Definition chk_special_sound (T : tables) : bool :=
   forallb (fun e => let k := fst e in let '(up, lo) := snd e in
-             has_fm T k || ((case_fold T up =? case_fold T k) && (case_fold T lo =? case_fold T k) && ((k =? up) || (k =? lo))))
+             has_fm T k || ((case_fold T up =? case_fold T k) && (case_fold T lo =? case_fold T k) && ((k =? up) || (k =? lo))
+                            && (0 <=? up) && (up <? 1114112) && (0 <=? lo) && (lo <? 1114112)))
           (ul_special T).
 (* completeness over the oracle: every member of the orbit of m is a candidate *)
 Definition chk_cands_complete_on (T : tables) (e : list (Z * Z)) : bool :=
@@ -80,6 +81,30 @@ Definition chk_cands_complete_on (T : tables) (e : list (Z * Z)) : bool :=
              let c := cands T (fst a) in
              forallb (fun b => if snd a =? snd b then existsb (Z.eqb (fst b)) c else true) e) e.
 Definition chk_cands_complete (T : tables) (R : rmap) : bool := chk_cands_complete_on T (els R).
+
+(* F10: the orbit of an ASCII code point: itself, its other case for letters, and U+212A / U+017F for k / s *)
+Definition ascii_cands (r : Z) : list Z :=
+  if ((65 <=? r) && (r <=? 90)) || ((97 <=? r) && (r <=? 122)) then
+    let l := if (65 <=? r) && (r <=? 90) then r + 32 else r in
+    [l; l - 32] ++ (if l =? 107 then [8490] else if l =? 115 then [383] else [])
+  else [r].
+
+Fixpoint zrange (n : nat) : list Z :=
+  match n with O => [] | S k => zrange k ++ [Z.of_nat k] end.
+Lemma zrange_in n b : 0 <= b < Z.of_nat n -> In b (zrange n).
+Proof.
+  induction n as [|n IH]; intros H; [lia|]. cbn [zrange]. apply in_or_app.
+  destruct (Z.eq_dec b (Z.of_nat n)) as [->|E]; [right; left; reflexivity|left; apply IH; lia].
+Qed.
+
+Definition chk_ascii_sound (T : tables) : bool :=
+  forallb (fun r => forallb (fun x => case_fold T x =? case_fold T r) (ascii_cands r)) (zrange 128).
+Definition chk_ascii_complete_on (e : list (Z * Z)) : bool :=
+  forallb (fun a => if fst a <? 128 then
+             let c := ascii_cands (fst a) in
+             forallb (fun b => if snd a =? snd b then existsb (Z.eqb (fst b)) c else true) e
+           else true) e.
+Definition chk_ascii_complete (R : rmap) : bool := chk_ascii_complete_on (els R).
 
 (* the checks are passed around wrapped, so that arithmetic tactics do not try to look inside them *)
 Definition holds (b : bool) : Prop := b = true.
@@ -281,6 +306,64 @@ Proof.
     rewrite E, Z.eqb_refl in C. apply existsb_exists in C as (y & Hy & Ey).
     replace x with y by lia. exact Hy.
   - apply (alone_in_orbit r x Hri Hx Mr) in E. subst. apply cands_self. exact Hr.
+Qed.
+
+(* candidates are code points *)
+Lemma cands_range r x : 128 <= r <= MaxRune -> In x (cands T r) -> 0 <= x <= MaxRune.
+Proof.
+  intros Hr. unfold cands. destruct (fold_map T r) as [fs|] eqn:FM.
+  - destruct (fold_map_cases r fs ltac:(lia) FM) as (p & F & Hk).
+    pose proof (fm_check_spec _ HFM p fs F) as C. cbv beta in C.
+    destruct fs as [|k fs']; [discriminate|]. cbn [hd] in Hk. subst k.
+    apply andb_true_iff in C as [_ C]. rewrite forallb_forall in C.
+    intros [->|H]; [lia|]. specialize (C x H). unfold MaxRune. lia.
+  - unfold to_upper_lower. replace (r <=? 128) with (r =? 128) by lia.
+    destruct (r =? 128) eqn:E128.
+    { replace ((65 <=? r) && (r <=? 90)) with false by lia. replace ((97 <=? r) && (r <=? 122)) with false by lia.
+      intros [->|[]]. lia. }
+    rewrite (u32_rune r) by lia. unfold slot.
+    assert (Hsp : match assoc r (ul_special T) with
+                  | Some (up, lo) => In x (if true then [lo; up] else [r])
+                  | None => In x [r] end -> 0 <= x <= MaxRune).
+    { destruct (assoc r (ul_special T)) as [[up lo]|] eqn:A; [|intros [->|[]]; lia].
+      pose proof HSP as S. unfold holds, chk_special_sound in S. rewrite forallb_forall in S.
+      specialize (S _ (assoc_in _ _ _ A)). cbn [fst snd] in S. unfold has_fm in S. rewrite FM in S.
+      unfold MaxRune. intros [->|[->|[]]]; lia. }
+    destruct (PositiveMap.find _ (ul_map T)) as [v|] eqn:F.
+    + destruct v as [|p0 [|p1 [|x3 v]]]; try (intros [->|[]]; lia).
+      destruct ((p0 =? r) || (p1 =? r)) eqn:Hit.
+      * pose proof (ul_check_spec _ HUL _ p0 p1 F) as C. cbv beta in C.
+        rewrite !to_rune_small by lia. unfold MaxRune. intros [->|[->|[]]]; lia.
+      * destruct (assoc r (ul_special T)) as [[up lo]|] eqn:A; exact Hsp.
+    + cbn [repeat]. replace ((0 =? r) || (0 =? r)) with false by lia.
+      destruct (assoc r (ul_special T)) as [[up lo]|] eqn:A; exact Hsp.
+Qed.
+
+(* ---- ASCII orbits ---- *)
+Hypothesis HAS : holds (chk_ascii_sound T).
+Hypothesis HAC : holds (chk_ascii_complete R).
+
+Theorem ascii_cands_exact r x :
+  0 <= r < 128 -> int32 x -> (fold x = fold r <-> In x (ascii_cands r)).
+Proof.
+  intros Hr Hx. split.
+  - intros E. assert (Hri : int32 r) by (unfold int32; lia).
+    destruct (is_member R r) eqn:Mr.
+    + apply (fold_orbit_exact T R HR HP HM) in E; [|assumption|assumption].
+      assert (Mx : is_member R x = true).
+      { destruct (is_member R x) eqn:Mx; [reflexivity|]. rewrite (rep_nonmember x Mx) in E.
+        apply member_props in Mr as (_ & _ & Mr). rewrite <- E in Mr. congruence. }
+      pose proof HAC as C. unfold holds, chk_ascii_complete, chk_ascii_complete_on in C. rewrite forallb_forall in C.
+      specialize (C _ (member_in_elements r Mr)). cbn [fst snd] in C.
+      replace (r <? 128) with true in C by lia. rewrite forallb_forall in C.
+      specialize (C _ (member_in_elements x Mx)). cbn [fst snd] in C.
+      rewrite E, Z.eqb_refl in C. apply existsb_exists in C as (y & Hy & Ey).
+      replace x with y by lia. exact Hy.
+    + apply (alone_in_orbit r x Hri Hx Mr) in E. subst. unfold ascii_cands.
+      destruct (((65 <=? r) && (r <=? 90)) || ((97 <=? r) && (r <=? 122))) eqn:A; [|left; reflexivity].
+      destruct ((65 <=? r) && (r <=? 90)) eqn:U; cbn [app]; [right; left; lia|left; reflexivity].
+  - intros H. pose proof HAS as S. unfold holds, chk_ascii_sound in S. rewrite forallb_forall in S.
+    specialize (S r (zrange_in 128 r ltac:(lia))). rewrite forallb_forall in S. specialize (S x H). lia.
 Qed.
 
 End G2.
